@@ -457,13 +457,19 @@ def populate(inner, tree, t0):
 
 def snapshot(inner, with_time):
     out = []
-    for path, info in inner.walk.info(namespaces=["details"]):
-        if info.is_dir:
-            out.append((path, "dir", "", None))
-        else:
-            mt = info.raw.get("details", {}).get("modified") if with_time else None
-            out.append((path, "file", bytes(inner.readbytes(path)), mt))
-    return sorted(out, key=lambda x: x[0])
+    stack = ["/"]
+    while stack:
+        d = stack.pop()
+        for info in inner.scandir(d, namespaces=["details"]):
+            path = d + info.name if d == "/" else d + "/" + info.name
+            if info.is_dir:
+                out.append((path, "dir", b"", None))
+                stack.append(path)
+            else:
+                mt = info.raw.get("details", {}).get("modified") if with_time else None
+                out.append((path, "file", bytes(inner.readbytes(path)), mt))
+    out.sort(key=lambda x: x[0])
+    return out
 
 
 def show_snapshot(snap):
@@ -680,10 +686,13 @@ def realized(res):
 
 # --------------------------------------------------------------------------- exploration
 
-def dfs(case, bound, cap):
+def dfs(case, bound, cap, root=(), depth=None):
     """Stateless depth first enumeration of the schedules of one case.  bound = maximal
-    number of preemptions (None: unbounded = every schedule).  Yields (result, complete)."""
-    prefix = []
+    number of preemptions (None: unbounded = every schedule).  Only the choice points at
+    positions len(root) <= i < depth are varied (root: fixed prefix; depth None: all).
+    Yields (result, complete)."""
+    prefix = list(root)
+    lo = len(prefix)
     n = 0
     while True:
         res = execute(case, prefix)
@@ -696,17 +705,27 @@ def dfs(case, bound, cap):
             if stay and c != 0:
                 u += 1
         i = len(trace) - 1
-        while i >= 0:
+        if depth is not None:
+            i = min(i, depth - 1)
+        while i >= lo:
             c, k, stay = trace[i]
-            if c + 1 < k and i >= 0:
+            if c + 1 < k:
                 if bound is None or used[i] + (1 if stay else 0) <= bound:
                     break
             i -= 1
-        complete = i < 0
+        complete = i < lo
         yield res, complete
-        if complete or n >= cap or res.status == "abort" and res.timeout:
+        if complete or n >= cap or (res.status == "abort" and res.timeout):
             return
         prefix = [t[0] for t in trace[:i]] + [trace[i][0] + 1]
+
+
+def dfs_roots(case, bound, depth):
+    """All distinct schedule prefixes of length <= depth (to split one DFS over processes)."""
+    roots = []
+    for res, _c in dfs(case, bound, 100000, (), depth):
+        roots.append(realized(res)[:depth])
+    return roots
 
 
 def file_ops(tree, chunk):
